@@ -17,10 +17,14 @@ RULE = ('random rasters up to 8x8 (plus 1xN / Nx1 / single cell): zone ids from 
         'ids equal to the nodata value) scattered over the raster (interleaved, non-contiguous), NaN / +inf / -inf zone cells, '
         'int32/int64/float32/float64 zones; integer-valued values (so sums are exact) in int/float dtypes with NaN/+-inf cells; '
         'nodata in {None, NaN, 0, a present value, a zone id}; zone_ids None / random sub-lists in any order with absent and '
-        'duplicate ids (occasionally NaN); random subsets of the seven statistics or the user reducers double_sum / ptp; both '
+        'duplicate ids (occasionally NaN); random subsets of the seven statistics (list) or dict-valued stats_funcs with user '
+        'callables under keys that collide with built-in names but compute a different statistic, and under other keys; both '
         'return types; zones and values INDEPENDENTLY in memory layout C / Fortran copy / transposed view / strided view; plus a '
         'Dask-backed stream (1-4 blocks, values chunked like or unlike zones, >= 1 requested zone exists) with selected zones '
-        'that have no valid cell (all NaN/inf/nodata), negative-only values and zones whose max / min is 0. Named hard cases: zone whose cells are all nodata/NaN, last zone, one-cell zones, all zones non-finite. '
+        'that have no valid cell (all NaN/inf/nodata), negative-only values and zones whose max / min is 0. Dtypes: every pair '
+        'of zones dtype x values dtype over float64/float32/int8/16/32/64/uint8/16/32/64; shapes include 1x1, 1xN, Nx1; a stream '
+        'with zone ids above 2**24 and above 2**53 (Python ints, adjacent ids) on int64/uint64/uint32/int32/float rasters; '
+        'zone_ids also empty. Named hard cases: zone whose cells are all nodata/NaN, last zone, one-cell zones, all zones non-finite. '
         'A case is non-trivial when at least one finite zone has a valid cell; cases are distinct by their JSON encoding.')
 TRUSTED = [
     'np.argsort / fancy indexing / np.unique / boolean masking are modelled (stable insertion sort by zone with NaN last, '
@@ -41,6 +45,8 @@ ASSUMPTIONS = [
     'by the oracle and against the same model; the source carries fixes/C02-neg-inf-zone.diff (without it a -inf zone cell shifts '
     'every slice: reported as a violation with key neg-inf-zone-shifts-slices)',
     'zone_ids contains no NaN in the theorem C02_stats_spec (NaN ids are exercised by the correspondence only)',
+    'the source carries fixes/C03-dask-sum-squares-overflow.diff and fixes/C03-dask-zone-ids-float-compare.diff (Dask stream; keys '
+    'dask-sum-squares-int-overflow / dask-zone-ids-compared-as-float otherwise)',
     'user reducers are permutation invariant (np.argsort does not fix the order of the cells inside a zone)',
 ]
 PARTIAL = [
@@ -64,8 +70,26 @@ LEVEL_NOTE = ('Trusted: Coq kernel, extraction, the OCaml driver, the harness; N
 
 NAN = float('nan')
 INF = float('inf')
-ZD = ['float64', 'float32', 'int32', 'int64']
-VD = ['float64', 'float32', 'int32', 'int64']
+ZD = ['float64', 'float32', 'int32', 'int64', 'int8', 'uint8', 'int16', 'uint16', 'uint32', 'uint64']
+VD = ['float64', 'int8', 'float32', 'uint8', 'int32', 'int16', 'int64', 'uint16', 'uint64', 'uint32']
+BIG_IDS = [2 ** 24 + 1, 2 ** 24 + 2, 2 ** 31 + 5, 2 ** 53 - 1, 2 ** 53, 2 ** 53 + 1, 2 ** 53 + 2, 2 ** 62 + 1]
+
+
+def pick_dtypes(i):
+    """every pair of (zones dtype, values dtype) is reached as i runs"""
+    return ZD[i % len(ZD)], VD[(i // len(ZD) + i) % len(VD)]
+
+
+def exact(x):
+    """a case number as Python int (kept exact, may exceed 2**53) or float"""
+    return int(x) if isinstance(x, int) and not isinstance(x, bool) else float(x)
+
+
+def num(x):
+    """exact Python number of an implementation output (int for integer dtypes: ids above 2**53 must not be rounded)"""
+    if isinstance(x, (int, np.integer)) and not isinstance(x, (bool, np.bool_)):
+        return int(x)
+    return float(x)
 ALL_STATS = ['mean', 'max', 'min', 'sum', 'std', 'var', 'count']
 
 
@@ -97,8 +121,10 @@ def gen_zones(rng, rows, cols, dtype, alphabet=None, p_nan=0.08, p_pinf=0.04, p_
         k = rng.randint(1, 5)
         if dtype.startswith('float') and rng.random() < 0.4:
             pool = [-2.5, -1.0, -0.5, 0.0, 0.25, 0.5, 1.0, 1.5, 2.0, 3.0, 7.0, 9.0]
+        elif dtype.startswith('uint'):
+            pool = [0.0, 1.0, 2.0, 3.0, 4.0, 5.0, 7.0, 9.0, 10.0, 200.0, 255.0]
         else:
-            pool = [-3.0, -1.0, 0.0, 1.0, 2.0, 3.0, 4.0, 5.0, 7.0, 9.0, 10.0]
+            pool = [-3.0, -1.0, 0.0, 1.0, 2.0, 3.0, 4.0, 5.0, 7.0, 9.0, 10.0, -128.0, 127.0]
         alphabet = rng.sample(pool, k)
     out = []
     fl = dtype.startswith('float')
@@ -125,6 +151,8 @@ def gen_zones(rng, rows, cols, dtype, alphabet=None, p_nan=0.08, p_pinf=0.04, p_
 
 def gen_values(rng, rows, cols, dtype, lo=-9, hi=20, small=False):
     fl = dtype.startswith('float')
+    if dtype.startswith('uint') and lo < 0:
+        lo, hi = 0, (hi if hi > 0 else 6)
     out = []
     for r in range(rows):
         row = []
@@ -144,6 +172,8 @@ def gen_values(rng, rows, cols, dtype, lo=-9, hi=20, small=False):
 
 
 def np_array(data, dtype):
+    if not str(dtype).startswith('float') and any(isinstance(x, int) for row in data for x in (row if isinstance(row, list) else [row])):
+        return np.array(data, dtype=dtype)         # exact big integers (above 2**53) never pass through float64
     return np.array(data, dtype='float64').astype(dtype)
 
 
@@ -165,6 +195,19 @@ def layout_array(data, dtype, layout):
     return a
 
 
+def fits(x, dtype):
+    """x (a python number) can be written into an integer-valued raster of this dtype (NaN / inf only in float dtypes)"""
+    x = float(x)
+    if not isfin(x):
+        return str(dtype).startswith('float')
+    if x != int(x):
+        return False            # the value rasters are integer-valued (exact sums)
+    if str(dtype).startswith('float'):
+        return float(np.array(x, dtype=dtype)) == x
+    info = np.iinfo(dtype)
+    return x == int(x) and info.min <= int(x) <= info.max
+
+
 def pick_layout(rng):
     u = rng.random()
     return 'C' if u < 0.4 else ('F' if u < 0.6 else ('T' if u < 0.8 else 'S'))
@@ -172,6 +215,8 @@ def pick_layout(rng):
 
 def shape_for(rng, quick=True):
     u = rng.random()
+    if u < 0.03:
+        return 1, 1
     if u < 0.08:
         return 1, rng.randint(1, 8)
     if u < 0.16:
@@ -180,13 +225,15 @@ def shape_for(rng, quick=True):
 
 
 def zone_scale(zones, ids):
-    vals = [z for row in zones for z in row] + [float(i) for i in (ids or [])]
+    vals = [z for row in zones for z in row] + [exact(i) for i in (ids or [])]
     return xvio.scale_for(vals)
 
 
 def nodata_tok(nd):
     if nd is None:
         return 'nan'
+    if isinstance(nd, int) and not isinstance(nd, bool):
+        return xvio.tok(nd, 1)
     nd = float(nd)
     if math.isnan(nd) or math.isinf(nd) or nd != int(nd):
         return 'nan' if not math.isinf(nd) else ('inf' if nd > 0 else '-inf')
@@ -196,7 +243,7 @@ def nodata_tok(nd):
 def ids_tok(ids, s):
     if ids is None:
         return '-1'
-    return xvio.lst([float(i) for i in ids], s)
+    return xvio.lst([exact(i) for i in ids], s)
 
 
 def cells_tok(zones, values, s):
@@ -218,7 +265,7 @@ def requested_rows(zones, zone_ids):
     present = finite_zone_ids(zones)
     if zone_ids is None:
         return present
-    req = [float(i) for i in zone_ids]
+    req = [exact(i) for i in zone_ids]
     return [z for z in present if any(z == r for r in req)]
 
 
@@ -270,19 +317,30 @@ CUSTOM = {
     'double_sum': lambda val: val.sum() * 2,
     'ptp': lambda val: val.max() - val.min(),
 }
+# user callables for a dict-valued stats_funcs, by reducer name (what the callable computes)
+USER_FUNCS = dict(CUSTOM,
+                  count=lambda val: val.size, sum=lambda val: val.sum(), min=lambda val: val.min(), max=lambda val: val.max(),
+                  mean=lambda val: val.mean(), var=lambda val: val.var(), std=lambda val: val.std())
 
 
-def stats_arg(names):
-    if all(n in ALL_STATS for n in names):
-        return list(names)
-    return {n: CUSTOM[n] for n in names}
+def reducer_of(case, col):
+    """what the column `col` must contain: for a list-valued stats_funcs the built-in of that name, for a dict-valued
+    stats_funcs the USER callable stored under that key (case['funcs'][col]) - also when the key is a built-in name"""
+    return (case.get('funcs') or {}).get(col, col)
+
+
+def stats_arg(case):
+    if case.get('funcs'):
+        return {col: USER_FUNCS[case['funcs'][col]] for col in case['stats']}
+    if all(n in ALL_STATS for n in case['stats']):
+        return list(case['stats'])
+    return {n: CUSTOM[n] for n in case['stats']}
 
 
 # --------------------------------------------------------------------------- case generation
 def gen_case(rng, quick, i):
     rows, cols = shape_for(rng, quick)
-    zd = ZD[i % 4]
-    vd = VD[(i // 4) % 4]
+    zd, vd = pick_dtypes(i)
     kind = rng.random()
     if kind < 0.03:     # all zone cells non-finite
         zd = 'float64'
@@ -313,8 +371,8 @@ def gen_case(rng, quick, i):
     if present and rng.random() < 0.25:
         z0 = rng.choice(present)
         fill = NAN if (vd.startswith('float') and (nodata is None or rng.random() < 0.5)) else nodata
-        if fill is not None and (isinstance(fill, int) or not isfin(float(fill)) or float(fill) == int(float(fill))):
-            if not (isinstance(fill, float) and not isfin(fill) and not vd.startswith('float')):
+        if fill is not None and fits(fill, vd):
+            if True:
                 for r in range(rows):
                     for c in range(cols):
                         if zones[r][c] == z0:
@@ -331,18 +389,76 @@ def gen_case(rng, quick, i):
             zone_ids.append(NAN)
         if rng.random() < 0.05:
             zone_ids = [11.0, -7.0]
+        if rng.random() < 0.03:
+            zone_ids = []
         rng.shuffle(zone_ids)
         if all(float(z) == int(z) for z in zone_ids if isfin(z)) and not any(math.isnan(z) for z in zone_ids) and rng.random() < 0.5:
             zone_ids = [int(z) for z in zone_ids]
     # stats
-    if rng.random() < 0.2:
+    funcs = None
+    u = rng.random()
+    if u < 0.1:
         names = rng.sample(['double_sum', 'ptp'], rng.randint(1, 2))
+    elif u < 0.3:
+        # dict-valued stats_funcs: keys that collide with built-in names but carry a DIFFERENT user callable, keys that
+        # collide and carry the same statistic, and keys that do not collide
+        k = rng.randint(1, 4)
+        names = rng.sample(ALL_STATS + ['double_sum', 'ptp', 'my_stat', 'range'], k)
+        pool = ['count', 'sum', 'min', 'max', 'mean', 'var', 'double_sum', 'ptp']
+        funcs = {}
+        for col in names:
+            if col in ALL_STATS and rng.random() < 0.75:
+                funcs[col] = rng.choice([f for f in pool if f != col and not (col == 'std' and f == 'var')])
+            elif col in ('double_sum', 'ptp') and rng.random() < 0.5:
+                funcs[col] = col
+            else:
+                funcs[col] = rng.choice(pool)
     else:
         names = [s for s in ALL_STATS if rng.random() < 0.5] or ['count']
         rng.shuffle(names)
     rt = 'xarray.DataArray' if rng.random() < 0.3 else 'pandas.DataFrame'
-    return dict(fn='stats', zones=zones, values=values, zdtype=zd, vdtype=vd, nodata=nodata, zone_ids=zone_ids,
+    case = dict(fn='stats', zones=zones, values=values, zdtype=zd, vdtype=vd, nodata=nodata, zone_ids=zone_ids,
                 stats=names, return_type=rt, zlayout=pick_layout(rng), vlayout=pick_layout(rng), backend='numpy')
+    if funcs:
+        case['funcs'] = funcs
+    return case
+
+
+def gen_big_case(rng, i, backend='numpy'):
+    """zone ids above 2**24 (not representable in float32) and above 2**53 (not representable in float64), as Python
+    ints in integer zone rasters and as floats where the dtype can hold them; ids that differ by 1 or 2"""
+    rows, cols = rng.randint(1, 4), rng.randint(1, 5)
+    zd = ['int64', 'uint64', 'float64', 'int64', 'uint32', 'float32', 'int64', 'int32'][i % 8]
+    cand = [b for b in BIG_IDS + [2 ** 24, 5, 0] if (np.iinfo(zd).max >= b if not zd.startswith('float')
+                                                     else float(np.array(b, dtype=zd)) == b and b <= 2 ** 53)]
+    alphabet = rng.sample(cand, min(len(cand), rng.randint(2, 4)))
+    isint = not zd.startswith('float')
+    zones = [[(rng.choice(alphabet) if isint else float(rng.choice(alphabet))) for _ in range(cols)] for _ in range(rows)]
+    if not isint:
+        for _ in range(rng.randint(0, 2)):
+            zones[rng.randrange(rows)][rng.randrange(cols)] = rng.choice([NAN, INF])
+    vd = VD[(i * 3) % len(VD)]
+    values = gen_values(rng, rows, cols, vd)
+    present = finite_zone_ids(zones)
+    if not present:
+        zones[0][0] = alphabet[0] if isint else float(alphabet[0])
+        present = finite_zone_ids(zones)
+    if rng.random() < 0.5:
+        zone_ids = None
+    else:
+        pool = list(present) + [p + 1 for p in present[:2]] + [11]
+        zone_ids = [rng.choice(pool) for _ in range(rng.randint(1, 4))]
+        if backend == 'dask' and present and not any(z in present for z in zone_ids):
+            zone_ids.append(rng.choice(present))
+        zone_ids = [int(z) for z in zone_ids]          # ids are given as Python ints (exact)
+    names = [s for s in ALL_STATS if rng.random() < 0.4] or ['count', 'max']
+    case = dict(fn='stats', zones=zones, values=values, zdtype=zd, vdtype=vd, nodata=None if rng.random() < 0.6 else 0,
+                zone_ids=zone_ids, stats=names, return_type='pandas.DataFrame' if (backend == 'dask' or rng.random() < 0.7) else 'xarray.DataArray',
+                zlayout='C', vlayout=pick_layout(rng), backend=backend, bigids=True)
+    if backend == 'dask':
+        case['zchunks'] = [composition(rng, rows, 2), composition(rng, cols, 2)]
+        case['vchunks'] = case['zchunks']
+    return case
 
 
 def composition(rng, n, max_parts):
@@ -356,8 +472,7 @@ def gen_dask_case(rng, i):
     one requested zone exists; hard cases: a selected zone without any valid cell (all NaN / all nodata), zones whose
     values are all negative, zones whose maximum / minimum is 0"""
     rows, cols = rng.randint(1, 5), rng.randint(1, 5)
-    zd = ZD[i % 4]
-    vd = VD[(i // 4) % 4]
+    zd, vd = pick_dtypes(i)
     zones, alphabet = gen_zones(rng, rows, cols, zd, p_nan=0.05, p_pinf=0.03, p_ninf=0.03)
     present = finite_zone_ids(zones)
     if not present:
@@ -378,12 +493,12 @@ def gen_dask_case(rng, i):
     if rng.random() < 0.6:          # a zone without any valid cell
         z0 = rng.choice(present)
         fl = vd.startswith('float')
-        if nodata is not None and isfin(float(nodata)) and (not fl or rng.random() < 0.5):
+        if nodata is not None and isfin(float(nodata)) and fits(nodata, vd) and (not fl or rng.random() < 0.5):
             fill = float(nodata)
         elif fl:
             fill = rng.choice([NAN, NAN, INF, -INF])
         else:
-            nodata = fill = float(rng.randint(-3, 3))
+            nodata = fill = float(rng.randint(0 if vd.startswith('uint') else -3, 3))
         for r in range(rows):
             for c in range(cols):
                 if zones[r][c] == z0:
@@ -421,35 +536,66 @@ def run_impl(case):
         z = xr.DataArray(za, dims=['y', 'x'])
         v = xr.DataArray(va, dims=['y', 'x'])
         with dask.config.set(scheduler='synchronous'):
-            res = stats(zones=z, values=v, zone_ids=case['zone_ids'], stats_funcs=stats_arg(case['stats']),
+            res = stats(zones=z, values=v, zone_ids=case['zone_ids'], stats_funcs=stats_arg(case),
                         nodata_values=case['nodata']).compute()
     else:
         z = xr.DataArray(za, dims=['y', 'x'])
         v = xr.DataArray(va, dims=['y', 'x'])
-        res = stats(zones=z, values=v, zone_ids=case['zone_ids'], stats_funcs=stats_arg(case['stats']),
+        res = stats(zones=z, values=v, zone_ids=case['zone_ids'], stats_funcs=stats_arg(case),
                     nodata_values=case['nodata'], return_type=case['return_type'])
     if case['return_type'] == 'pandas.DataFrame':
         cols = list(res.columns)
         if cols != ['zone'] + list(case['stats']):
             raise AssertionError('columns %r' % cols)
-        return [dict((c, float(res[c].iloc[i])) for c in cols) for i in range(len(res))]
+        return [dict((c, num(res[c].iloc[i]) if c == 'zone' else float(res[c].iloc[i])) for c in cols) for i in range(len(res))]
     if list(res.coords['stats'].values) != list(case['stats']) or res.shape != (len(case['stats']),) + z.shape:
         raise AssertionError('raster result shape/coords %r' % (res.shape,))
     return [[float(x) for x in res.data[k].ravel().tolist()] for k in range(len(case['stats']))]
+
+
+K_SQ = 'dask-sum-squares-int-overflow'
+K_F53 = 'dask-zone-ids-compared-as-float'
+
+
+def float_collision_class(case):
+    """Dask backend and a requested id that differs from a present zone id but rounds to the same float64 (ids above 2**53)"""
+    if case.get('backend', 'numpy') != 'dask' or case['zone_ids'] is None:
+        return False
+    present = finite_zone_ids(case['zones'])
+    return any(exact(r) != z and isfin(float(r)) and float(r) == float(z) for r in case['zone_ids'] for z in present)
+
+
+def sumsq_overflow_class(case, stat=None):
+    """Dask backend, integer values whose square does not fit the values dtype, and std / var requested"""
+    if case.get('backend', 'numpy') != 'dask' and case.get('fn') != 'stats_dask':
+        return False
+    vd = case['vdtype']
+    if str(vd).startswith('float') or (stat is not None and stat not in ('std', 'var')):
+        return False
+    mx = np.iinfo(vd).max
+    return any(isfin(v) and v * v > mx for row in case['values'] for v in row)
 
 
 def has_neg_inf_zone(case):
     return any(z == -INF for row in case['zones'] for z in row)
 
 
+def col_desc(case, col):
+    r = reducer_of(case, col)
+    return col if r == col else '%s (stats_funcs[%r] = user callable computing %s)' % (col, col, r)
+
+
 def oracle(ctx, case, out):
     """the property text on the implementation's output; returns True when it holds"""
     zones, values, nodata = case['zones'], case['values'], case['nodata']
-    nd = None if nodata is None else float(nodata)
+    nd = None if nodata is None else exact(nodata)
     key = 'neg-inf-zone-shifts-slices' if has_neg_inf_zone(case) else None
     exp_rows = requested_rows(zones, case['zone_ids'])
     if case['return_type'] == 'pandas.DataFrame':
+        key0 = key
         got_ids = [r['zone'] for r in out]
+        if got_ids != exp_rows and key is None and float_collision_class(case):
+            key = K_F53
         if got_ids != exp_rows:
             ctx.violation('oracle', 'stats: rows are zones %r, expected the requested distinct finite zone ids %r (ascending)' % (
                 got_ids, exp_rows), dict(case, got_rows=got_ids, expected_rows=exp_rows), key=key)
@@ -457,9 +603,10 @@ def oracle(ctx, case, out):
         for r in out:
             xs = zone_valid_values(zones, values, r['zone'], nd)
             for s in case['stats']:
-                if not stat_matches(s, r[s], xs, case['vdtype']):
+                key = key0 or (K_SQ if sumsq_overflow_class(case, s) else None)
+                if not stat_matches(reducer_of(case, s), r[s], xs, case['vdtype']):
                     ctx.violation('oracle', 'stats: zone %r %s = %r but its valid cells are %r' % (
-                        r['zone'], s, r[s], [float(x) for x in xs]),
+                        r['zone'], col_desc(case, s), r[s], [float(x) for x in xs]),
                         dict(case, zone=r['zone'], stat=s, got=r[s], valid_cells=[float(x) for x in xs]), key=key)
                     return False
         return True
@@ -469,11 +616,11 @@ def oracle(ctx, case, out):
             g = out[k][j]
             if isfin(z) and z in exp_rows:
                 xs = zone_valid_values(zones, values, z, nd)
-                ok = stat_matches(s, g, xs, case['vdtype'])
+                ok = stat_matches(reducer_of(case, s), g, xs, case['vdtype'])
             else:
                 ok = math.isnan(g)
             if not ok:
-                ctx.violation('oracle', 'stats(DataArray): cell %d (zone %r) carries %s = %r' % (j, z, s, g),
+                ctx.violation('oracle', 'stats(DataArray): cell %d (zone %r) carries %s = %r' % (j, z, col_desc(case, s), g),
                               dict(case, cell=j, zone=z, stat=s, got=g), key=key)
                 return False
     return True
@@ -517,6 +664,8 @@ def compare_model(ctx, case, out, mo, s):
     key = 'neg-inf-zone-shifts-slices' if has_neg_inf_zone(case) else None
     if case['return_type'] == 'pandas.DataFrame':
         rows = [g.split() for g in mo.split(';')] if mo.strip() else []
+        if len(rows) != len(out) and key is None and float_collision_class(case):
+            key = K_F53
         if len(rows) != len(out):
             ctx.violation('correspondence', 'stats: implementation has %d rows, model %d' % (len(out), len(rows)),
                           dict(case, impl=out, model=mo), key=key)
@@ -527,16 +676,20 @@ def compare_model(ctx, case, out, mo, s):
                 ctx.violation('correspondence', 'stats: row zone %r vs model %s' % (r['zone'], md['zone']),
                               dict(case, impl=out, model=mo), key=key)
                 return
-            for st in case['stats']:
+            for col in case['stats']:
+                st = reducer_of(case, col)
+                if key is None and sumsq_overflow_class(case, st):
+                    key = K_SQ
                 q = parse_num(md['var' if st == 'std' else st])
-                if not close_q(st, r[st], q, case['vdtype']):
+                if not close_q(st, r[col], q, case['vdtype']):
                     ctx.violation('correspondence', 'stats: zone %r %s: implementation %r vs model %s' % (
-                        r['zone'], st, r[st], md['var' if st == 'std' else st]), dict(case, impl=out, model=mo), key=key)
+                        r['zone'], col_desc(case, col), r[col], md['var' if st == 'std' else st]), dict(case, impl=out, model=mo), key=key)
                     return
         return
     parts = [p.split() for p in mo.split(';')]
     cols = dict(zip(['sum', 'max', 'mean'], parts))
-    for k, st in enumerate(case['stats']):
+    for k, col in enumerate(case['stats']):
+        st = reducer_of(case, col)
         if st not in cols:
             continue
         if len(cols[st]) != len(out[k]):
@@ -567,14 +720,18 @@ def run(ctx, n=None, n_dask=None):
     rng = ctx.rng
     n = n or (2500 if ctx.quick() else 25000)
     pending = []
-    for i in range(n):
-        case = gen_case(rng, ctx.quick(), i)
-        if case['return_type'] == 'xarray.DataArray' and not set(case['stats']) & {'sum', 'max', 'mean'}:
+    nbig = max(20, n // 25)
+    for i in range(n + nbig):
+        case = gen_case(rng, ctx.quick(), i) if i < n else gen_big_case(rng, i)
+        if case.get('bigids'):
+            ctx.count('hard/zone-ids-above-2^24-or-2^53/%s' % case['zdtype'])
+        if case['return_type'] == 'xarray.DataArray' and not case.get('funcs') and not set(case['stats']) & {'sum', 'max', 'mean'}:
             case['stats'] = case['stats'] + ['sum'] if all(s in ALL_STATS for s in case['stats']) else case['stats']
         ctx.case(case, nontrivial=nontrivial(case))
         ctx.count('%s/z=%s/v=%s/%s/%s' % ('df' if case['return_type'] == 'pandas.DataFrame' else 'raster', case['zdtype'],
                                            case['vdtype'], 'ids' if case['zone_ids'] is not None else 'all',
-                                           'custom' if case['stats'][0] in CUSTOM else 'default'))
+                                           'dict-colliding-keys' if any(c in ALL_STATS and f != c for c, f in (case.get('funcs') or {}).items())
+                                           else ('dict' if (case.get('funcs') or case['stats'][0] in CUSTOM) else 'list')))
         ctx.count('layout/zones=%s/values=%s' % (case['zlayout'], case['vlayout']))
         if has_neg_inf_zone(case):
             ctx.count('hard/-inf-zone-cell')
@@ -589,7 +746,7 @@ def run(ctx, n=None, n_dask=None):
         pending.append((line, s, case, out))
     # ---- Dask-backed stream: same oracle, same model (evaluated in a small worker pool) ----
     nd = n_dask if n_dask is not None else (96 if ctx.quick() else 900)
-    dcases = [gen_dask_case(rng, i) for i in range(nd)]
+    dcases = [gen_dask_case(rng, i) for i in range(nd)] + [gen_big_case(rng, i, 'dask') for i in range(max(8, nd // 8))]
     if dcases:
         with mp.get_context('fork').Pool(min(6, int(os.environ.get('VERIF_POOL', '6')))) as pool:
             douts = pool.map(_eval_dask, dcases, chunksize=2)
